@@ -37,9 +37,23 @@ BOUND_FIELDS = [('CO_TPDO', 'ObjNum'), ('CO_RPDO', 'ObjNum')]
 MIN_SITES = 250
 
 
+def _config_preconds(m):
+    """the PDO-number preconditions follow the configured number of PDOs (extent of CO_NODE.TPdo / RPdo)"""
+    ext = {}
+    for (fn_, ty, cty) in m.records.get('CO_NODE', ()):
+        if fn_ in ('TPdo', 'RPdo'):
+            ext[fn_] = array_extent(cty)
+    hi = min(v for v in ext.values() if v) - 1 if ext else 3
+    for k in (('COTPdoIdWrite', 'num'), ('COTPdoEventWrite', 'num')):
+        lo, _, why = PRECOND[k]
+        h = hi if k[0] == 'COTPdoIdWrite' else (ext.get('TPdo') or 4) - 1
+        PRECOND[k] = (lo, h, why)
+
+
 class Engine(object):
     def __init__(self, m):
         self.m = m
+        _config_preconds(m)
         self.memo = {}
         self.rmemo = {}
         self.field_inv = dict((k, (v[0], v[1])) for k, v in FIELD_PRE.items())
@@ -74,6 +88,30 @@ class Engine(object):
             else:
                 out = dict((i, hull(out[i], here[i])) for i in out if i in here)
         return out
+
+    def site_contexts(self, fname):
+        """one parameter-interval map per in-tree call site (call-site sensitive refinement: a helper shared by
+        the TX and the RX side is called with (number of that side, side constant); joining the sites loses
+        the relation between the two arguments)"""
+        m = self.m
+        fn = m.funcs[fname]
+        if not api.is_internal(m, fname):
+            return None
+        out = []
+        for (gname, call) in m.callers.get(fname, []):
+            r = self.analyse(gname)
+            nid = m.node_of(gname, call)
+            st = r.IN.get(nid) if nid is not None else None
+            if st is None:
+                continue
+            here = {}
+            for i, a in enumerate(call.kids[1:]):
+                if i < len(fn.params) and int_type(fn.params[i][2]) is not None:
+                    iv = r.ev(a, st, nid)
+                    if iv is not None:
+                        here[i] = iv
+            out.append(('%s:%d' % (gname, call.line), here))
+        return out or None
 
     def compute_field_invariants(self, ctx):
         m = self.m
@@ -217,6 +255,26 @@ def run(ctx):
             site = '%s: %s (extent %d)' % (m.loc(fname, n), show(n), ext)
             if st is None:
                 continue
+            if not (iv is not None and iv[0] >= 0 and iv[1] <= ext - 1):
+                # retry per call site before reporting
+                ctxs = eng.site_contexts(fname)
+                if ctxs and len(ctxs) > 1:
+                    worst = None
+                    pre = dict((v, (lo, hi)) for (f, v), (lo, hi, why) in PRECOND.items() if f == fname)
+                    for (where, piv) in ctxs:
+                        rc = Intervals(m, fname, param_iv=piv, preconds=pre, field_inv=eng.field_inv, call_iv=eng.call_iv)
+                        stc = rc.IN.get(nid)
+                        if stc is None:
+                            continue          # the subscript is unreachable in this context
+                        ivc = rc.ev(n.kids[1], stc, nid)
+                        if ivc is None or ivc[0] < 0 or ivc[1] > ext - 1:
+                            worst = ivc or (None, None)
+                            break
+                    else:
+                        iv = (0, ext - 1) if worst is None else iv
+                        if worst is None:
+                            ctx.ob(props, 'RF6', fname, site, 'in range in each of %d call-site contexts' % len(ctxs), nontrivial=True)
+                            continue
             if iv is not None and iv[0] >= 0 and iv[1] <= ext - 1:
                 used = [k for (ff, v) in PRECOND if ff == fname for k in [v]]
                 ctx.ob(props, 'RF6', fname, site, 'index in [%s, %s]' % (iv[0], iv[1]), nontrivial=not lit)
